@@ -165,7 +165,17 @@ PrevNonBlank(i) == IF i < 1 THEN 0 ELSE IF IsWs(i) /\ ~Toks[i].nl THEN PrevNonBl
 StartsLine(i) == LET p == PrevNonBlank(i - 1) IN p = 0 \/ Toks[p].nl \/ (Toks[p].k = "cmt" /\ Toks[p].val[Len(Toks[p].val)] \in {10, 13})
 EndsWithJoin(v) == Len(v) >= 4 /\ SubSeq(v, Len(v) - 3, Len(v)) = <<74, 79, 73, 78>>
 IsByWord(v) == v \in { <<71,82,79,85,80,32,66,89>>, <<79,82,68,69,82,32,66,89>> }      \* GROUP BY, ORDER BY (single blank)
-IsClauseKw(i) == Toks[i].k = "kw" /\ (UpperVal(i) \in ClauseWords \/ EndsWithJoin(UpperVal(i)) \/ IsByWord(UpperVal(i)))
+\* AND / OR start a line too, except the AND of BETWEEN ... AND: the nearest condition word before it is BETWEEN
+AndOr == { <<65,78,68>>, <<79,82>> }
+CondWords == AndOr \cup { <<66,69,84,87,69,69,78>>, <<87,72,69,82,69>>, <<79,78>>, <<87,72,69,78>>, <<72,65,86,73,78,71>> }   \* + BETWEEN WHERE ON WHEN HAVING
+RECURSIVE PrevCondWord(_)
+PrevCondWord(i) == IF i < 1 THEN <<>>
+                   ELSE IF Toks[i].k = "kw" /\ UpperVal(i) \in CondWords THEN UpperVal(i)
+                   ELSE PrevCondWord(i - 1)
+IsFreeAndOr(i) == Toks[i].k = "kw" /\ UpperVal(i) \in AndOr
+                  /\ ~(UpperVal(i) = <<65,78,68>> /\ PrevCondWord(i - 1) = <<66,69,84,87,69,69,78>>)
+IsClauseKw(i) == (Toks[i].k = "kw" /\ (UpperVal(i) \in ClauseWords \/ EndsWithJoin(UpperVal(i)) \/ IsByWord(UpperVal(i))))
+                 \/ IsFreeAndOr(i)
 NF_reindent_kw == \A i \in 1..NT : IsClauseKw(i) => StartsLine(i)
 NF_no_trailing_blank ==
     \A i \in 1..NT : (IsWs(i) /\ ~Toks[i].nl) => (i < NT /\ ~Toks[i + 1].nl)
